@@ -16,6 +16,10 @@ vars == <<l, cfg, cand, last, cnt, ver>>
 Diag(prop, ok, what) == IF ok THEN TRUE ELSE PrintT(<<"DIAG", ToJson([prop |-> prop, l |-> l, what |-> what])>>)
 IsEvent(e) == l <= Len(Rec) /\ Rec[l].ev = e /\ l' = l + 1
 NoVal == 0 - 1
+\* keys are 64-bit: they cross as [hi, lo] (TLC integers are 32-bit); routing arithmetic on the full value
+P32(n) == ((65536 % n) * (65536 % n)) % n
+KeyMod(k, n) == (((k.hi % n) * P32(n)) + (k.lo % n)) % n
+KId(k) == <<k.hi, k.lo>>
 
 TNew ==
   /\ IsEvent("New")
@@ -25,32 +29,32 @@ TNew ==
        /\ cnt' = [t \in 0..(e.T - 1) |-> 0]
        /\ ver' = [t \in 0..(e.T - 1) |-> 0]
        /\ last' = <<>>
-LastOf(k) == IF k \in DOMAIN last THEN last[k] ELSE NoVal
+LastOf(k) == IF KId(k) \in DOMAIN last THEN last[KId(k)] ELSE NoVal
 
-InsStep(c, k) == IF k \in c THEN { <<c, 0>> }
+InsStep(c, kk) == LET k == KId(kk) IN IF k \in c THEN { <<c, 0>> }
                  ELSE IF Cardinality(c) < cfg.S THEN { <<c \cup {k}, 1>> }
                  ELSE { <<(c \ {x}) \cup {k}, 0>> : x \in c }
 TInsert ==
   /\ IsEvent("Insert")
-  /\ LET e == Rec[l] t == e.t b == e.key % cfg.B
+  /\ LET e == Rec[l] t == e.t b == KeyMod(e.key, cfg.B)
          outs == UNION { InsStep(c, e.key) : c \in cand[t][b] }
          delta == e.used - cnt[t]
          fit == { o \in outs : o[2] = delta }
-     IN /\ Diag("C15", t = e.key % cfg.T, [kind |-> "insert routed to the wrong sub-table", key |-> e.key, table |-> t])
+     IN /\ Diag("C15", t = KeyMod(e.key, cfg.T), [kind |-> "insert routed to the wrong sub-table", key |-> e.key, table |-> t])
         /\ Diag("TOOL", e.version = ver[t] + 1, [kind |-> "version gap in the recorded linearisation", table |-> t, version |-> e.version])
         /\ Diag("C15", fit # {}, [kind |-> "entry count after insert is not the number of occupied slots", key |-> e.key, reported |-> e.used, before |-> cnt[t]])
         /\ Diag("C15", e.used <= cfg.B * cfg.S, [kind |-> "entry count exceeds capacity", reported |-> e.used])
         /\ cand' = [cand EXCEPT ![t][b] = { o[1] : o \in (IF fit # {} THEN fit ELSE outs) }]
         /\ cnt' = [cnt EXCEPT ![t] = e.used]
         /\ ver' = [ver EXCEPT ![t] = e.version]
-        /\ last' = [k \in DOMAIN last \cup {e.key} |-> IF k = e.key THEN e.val ELSE last[k]]
+        /\ last' = [k \in DOMAIN last \cup {KId(e.key)} |-> IF k = KId(e.key) THEN e.val ELSE last[k]]
   /\ UNCHANGED cfg
 
 TFind ==
   /\ IsEvent("Find")
-  /\ LET e == Rec[l] t == e.t b == e.key % cfg.B
-         keep == IF e.hit THEN { c \in cand[t][b] : e.key \in c } ELSE { c \in cand[t][b] : e.key \notin c }
-     IN /\ Diag("C15", t = e.key % cfg.T, [kind |-> "find routed to the wrong sub-table", key |-> e.key, table |-> t])
+  /\ LET e == Rec[l] t == e.t b == KeyMod(e.key, cfg.B)
+         keep == IF e.hit THEN { c \in cand[t][b] : KId(e.key) \in c } ELSE { c \in cand[t][b] : KId(e.key) \notin c }
+     IN /\ Diag("C15", t = KeyMod(e.key, cfg.T), [kind |-> "find routed to the wrong sub-table", key |-> e.key, table |-> t])
         /\ Diag("TOOL", e.version = ver[t], [kind |-> "find at an unknown version", table |-> t, version |-> e.version])
         /\ (IF e.hit
             THEN /\ Diag("C15", e.val = LastOf(e.key), [kind |-> "find returned an entry that is not the most recent one stored under this key", key |-> e.key, got |-> e.val, latest |-> LastOf(e.key)])
